@@ -267,6 +267,13 @@ def curated() -> Dict[str, World]:
         {"top.do": [S(deps=["c1"])], "c1.do": [S(kind="csum", deps=["c2"], proj=True, out="file")],
          "c2.do": [S(kind="csum", deps=["s"])]},
         ["top", "c1", "c2"], ["top", "c1"])
+    W["csum-kids"] = World(   # a checksummed target with two checksummed dependencies that can both be uncertain in one run
+        "csum-kids", {"s": V3, "u": V3},
+        {"top.do": [S(deps=["mid"])], "mid.do": [S(kind="csum", deps=["l1", "l2"], out="file")],
+         "l1.do": [S(kind="csum", deps=["s"], proj=True)], "l2.do": [S(kind="csum", deps=["u"], proj=True, out="file")]},
+        ["top", "mid", "l1", "l2"], ["top", "mid"],
+        prefixes=[[["ifchange", ["top"]], ["edit", "s", "1"], ["edit", "u", "1"]],
+                  [["ifchange", ["top"]], ["edit", "s", "2"], ["edit", "u", "1"]]])
     W["csum-fan"] = World(
         "csum-fan", {"s": V3},
         {"x.do": [S(deps=["c"])], "y.do": [S(kind="always", deps=["c"])],
